@@ -21,7 +21,8 @@ EXPLANATION = (
     'Version/Evolution in the evolve path names its database, every '
     'connections[...] / SQLExecutor / DatabaseState / atomic is fed from the '
     'function\'s or object\'s database, and a callee that takes a database '
-    'parameter is given the caller\'s one.')
+    'parameter is given the caller\'s one; '
+    'R-C16.5 the pending-mutation filter exempts from the changed-models test only model-less mutations and RenameModel (evaluated over the mutation class hierarchy).')
 NOT_DECIDED = 'Behaviour under arbitrary routers and model splits.'
 TECHNIQUE = ('CFG must-pass-through with short-circuit expansion '
              '(is_mutable), control dependence of membership on the router '
